@@ -86,3 +86,23 @@ Definition html_escape_chr (c : chr) : str :=
   else if c =? 39 then [38; 35; 120; 50; 55; 59]         (* &#x27; *)
   else [c].
 Definition html_escape (s : str) : str := flat_map html_escape_chr s.
+
+(* ---------- what filter_display_type reads: one constructor per class its isinstance chain distinguishes ---------- *)
+Fixpoint take_while (p : chr -> bool) (s : str) : str :=
+  match s with c :: r => if p c then c :: take_while p r else [] | [] => [] end.
+Fixpoint drop_while (p : chr -> bool) (s : str) : str :=
+  match s with c :: r => if p c then drop_while p r else s | [] => [] end.
+
+(* str(x).split()[-1] *)
+Definition is_space (c : chr) : bool := (c =? 32) || ((9 <=? c) && (c <=? 13)).
+Definition last_word (s : str) : str :=
+  rev (take_while (fun c => negb (is_space c)) (drop_while is_space (rev s))).
+
+Inductive dnode :=
+| NFixed (e : dnode) (cap : Z)            (* FixedLengthArrayType: element_type, capacity *)
+| NVar (e : dnode) (cap : Z)              (* VariableLengthArrayType *)
+| NPad (s : str)                          (* PaddingField: str(instance) *)
+| NField (d : dnode) (nm : str)           (* Field (not padding): data_type, name *)
+| NConst (d : dnode) (nm val : str)       (* Constant: data_type, name, '{}'.format(value) *)
+| NPrim (saturated : bool) (s : str)      (* PrimitiveType: cast_mode == SATURATED, str(instance) *)
+| NOther (s : str).                       (* anything else: str(instance) *)
